@@ -104,7 +104,8 @@ class SpecStream(threading.Thread):
             for cfg in fine:
                 model_check(ctx, cfg, 300 if quick else 2400, coverage=(not quick and cfg == "MC_fine_t1"))
             model_check(ctx, "MC_live_q" if quick else "MC_live_t", 300 if quick else 1800)
-            model_check(ctx, "MC_coarse_q" if quick else "MC_coarse_t", 300 if quick else 1800)
+            for cfg in (["MC_coarse_q"] if quick else ["MC_coarse_t", "MC_coarse_t2", "MC_coarse_t3", "MC_coarse_t4"]):
+                model_check(ctx, cfg, 300 if quick else 2400)
             if not quick:
                 as_code_must_hang(ctx, "MC_ascode_nohang", "NoHang")
         except BaseException as ex:   # re-raised in the main thread
@@ -176,7 +177,8 @@ def run(ctx):
     ctx.assumptions = ["synctest.Wait() quiescence = no goroutine of the call can move",
                        "stub DoBatchRing returns exactly the case's replication sets / MaxErrors; minSuccess >= 1, replication sets non-empty",
                        "error identity compared by pointer equality; VerifYield hooks sit at the specification's yield points",
-                       "bounds: <= 3 keys, <= 4 replica calls, RF <= 3 (thorough); <= 2 keys, <= 3 replica calls (quick)"]
+                       "bounds (atomic grain): <= 3 keys x 3 replica calls (2 concurrent), 2 keys x 4 replica calls RF 3 (thorough); 1 key x 3, 2 keys x 2 (quick); "
+                       "coarse grain / replay: up to 3 keys x 4 calls RF <= 3, 4 keys x 3 calls, 1 key x 5 calls RF 5, 2 keys x 6 calls RF 3"]
     ctx.exhaustive = True
     corrupt = int(os.environ.get("VERIF_C10_CORRUPT", "0"))   # development self-test: falsify an expected output / a logged field
 
@@ -201,9 +203,10 @@ def run(ctx):
         if not quick:
             p1, n1 = generate(ctx, "MC_gen_call_t", 2400)
             p2, n2 = generate(ctx, "MC_gen_hook_t", 2400)
-            res = replay(ctx, [p1, p2], n1 + n2, 2400, real_every=1)
+            p3, n3 = generate(ctx, "MC_gen_call_t2", 2400)
+            res = replay(ctx, [p1, p2, p3], n1 + n2 + n3, 3000, real_every=1)
             ctx.absorb(res, "replay (thorough universe)")
-            n_call, n_hook = n_call + n1, n_hook + n2
+            n_call, n_hook = n_call + n1 + n3, n_hook + n2
         ctx.extra["behaviours_grain_call"] = n_call
         ctx.extra["behaviours_grain_hook"] = n_hook
 
